@@ -232,6 +232,13 @@ def accounting(cfg, b):
         return []
     kind = kind_of(err)
     note("error:" + kind)
+    # what any caller does first with an error is to log it; the attributes must survive that.  Only a
+    # renderer defined by the project is called (BaseException's own would concretise the message text)
+    import types as _types
+
+    _render = type(err).__str__
+    if isinstance(_render, _types.FunctionType):
+        _text = _render(err)
     rem = as_list(err.bytes_remaining) if err.bytes_remaining is not None else None
     checks = [("remaining-set", rem is not None)]
     if rem is None:
